@@ -22,7 +22,7 @@ KINDS = {
     "date-time": ({"type": "string", "format": "date-time"}, None,
                   ["2020-01-02T03:04:05Z", "2021-12-31T23:59:59+02:00", "2020-01-02T03:04:05.123456+00:00"]),
     "date": ({"type": "string", "format": "date"}, None, ["2020-01-02", "1999-12-31", "2024-02-29"]),
-    "time": ({"type": "string", "format": "time"}, None, ["03:04:05", "23:59:59", "00:00:00"]),
+    "time": ({"type": "string", "format": "time"}, None, ["03:04:05", "23:59:59", "09:30:00.123456"]),
     "uuid": ({"type": "string", "format": "uuid"}, None,
              ["123e4567-e89b-12d3-a456-426614174000", "00000000-0000-0000-0000-000000000000", "ffffffff-ffff-4fff-bfff-ffffffffffff"]),
     "byte": ({"type": "string", "format": "byte"}, None, ["aGVsbG8=", "+/+/++8=", ""]),
@@ -41,7 +41,7 @@ KINDS = {
     "arr-datetime": ({"type": "array", "items": {"type": "string", "format": "date-time"}}, None,
                      [["2020-01-02T03:04:05Z"], ["2020-01-02T03:04:05Z", "2021-01-02T03:04:05Z"], []]),
     "arr-ref": ({"type": "array", "items": _ref("TgtArr")}, None, [[{"id": 1}], [{"id": 1, "displayName": "l"}, {"id": 2}], []]),
-    "map-string": ({"type": "object", "additionalProperties": {"type": "string"}}, None, [{"k": "v"}, {"a": "b", "c": "d"}, {}]),
+    "map-string": ({"type": "object", "additionalProperties": {"type": "string"}}, {}, [{"k": "v"}, {"a": "b", "c": "d"}, {}]),
     "map-ref": ({"type": "object", "additionalProperties": _ref("TgtMap")}, None,
                 [{"k": {"id": 1, "displayName": "n"}}, {"a": {"id": 1}, "b": {"id": 2, "displayName": "l"}}, {}]),
     "map-arr-ref": ({"type": "object", "additionalProperties": {"type": "array", "items": _ref("TgtMapArr")}}, None,
@@ -50,10 +50,10 @@ KINDS = {
     "nullable-string": ({"type": "string", "nullable": True}, None, ["a", None, ""]),
     "nullable-ref": ({"allOf": [_ref("TgtNull")], "nullable": True}, None, [{"id": 1}, None, {"id": 2, "displayName": "x"}]),
     "type-list-null": ({"type": ["string", "null"]}, None, ["a", None, "b"]),
-    "free-object": ({"type": "object"}, None, [{"a": 1}, {"b": {"c": [1, 2]}}, {}]),
-    "inline-object": ({"type": "object", "properties": {"x": {"type": "integer"}, "y": {"type": "string"}}}, None,
+    "free-object": ({"type": "object"}, {}, [{"a": 1}, {"b": {"c": [1, 2]}}, {}]),
+    "inline-object": ({"type": "object", "properties": {"x": {"type": "integer"}, "y": {"type": "string"}}}, {"x": 1},
                       [{"x": 1}, {"x": 2, "y": "s"}, {}]),
-    "oneof-ref-string": ({"oneOf": [_ref("TgtUnion"), {"type": "string"}]}, None, [{"id": 1}, "s", {"id": 2, "displayName": "l"}]),
+    "oneof-ref-string": ({"oneOf": [_ref("TgtUnion"), {"type": "string"}]}, {"id": 7}, [{"id": 1}, "s", {"id": 2, "displayName": "l"}]),
     "any": ({}, None, [1, "s", {"a": [1]}]),
     # reference to a NAMED enum whose members are spelled in every style and which declares a default itself
     "ref-enum": (_ref("StateEnum"), None, ["inProgress", "done-now", "on hold"]),
@@ -68,6 +68,8 @@ KINDS = {
     "integer-type-list-null": ({"type": ["integer", "null"]}, None, [3, None, 0]),
     # a property whose schema is left empty (YAML `note:` / JSON null): no constraint, but the property exists
     "null-schema": (None, None, [1, "s", {"a": [1]}]),
+    # "any value" spelled as an empty schema under additionalProperties (Swashbuckle / NSwag style)
+    "map-empty-schema": ({"type": "object", "additionalProperties": {}}, None, [{"a": 1}, {"b": {"c": [1]}, "d": "s"}, {}]),
     # maps whose VALUES may be null
     "map-nullable-string": ({"type": "object", "additionalProperties": {"type": "string", "nullable": True}}, None, [{"k": "v"}, {"a": None, "b": "x"}, {}]),
     "map-nullable-integer": ({"type": "object", "additionalProperties": {"type": "integer", "nullable": True}}, None, [{"k": 1}, {"a": None, "b": 2}, {}]),
